@@ -219,6 +219,22 @@ ADDED = {
         "handles are modelled.",
 }
 
+ADDED2 = {
+ "C01": "Explicit --delta presets; TSS-inside-intron topologies; full-length reads must report T unless an equally close isoform is full-length too.",
+ "C02": "L3: the recount is repeated on MIX, C13-grammar and mixed worlds; same-chromosome multi-mappers with a per-read total-weight oracle; ids starting with an underscore.",
+ "C05": "L5: MAPQ filter matrix (5 alignment kinds x 9 MAPQ values x 9 option sets).",
+ "C08": "Family same3: two alignments on one chromosome plus one elsewhere, with an expected-retained-set oracle.",
+ "C09": "Integer-typed tags, documented column options of file: grouping, partition oracle on an all-types world under strategy pairs.",
+ "C10": "Experiments with duplicated records, with reads of the last chromosome only, feature ids NA/null/nan.",
+ "C11": "Boundary world (reads adjacent to / touching one base of a gene); structures I1/I2/MA.",
+ "C13": "Retained secondary alignments; explicit --delta presets with shifted junctions.",
+ "C16": "Every structured read is also trimmed with hard clips outside the soft clips (invariance).",
+ "C18": "Islands worlds (read window vs gene, region at base 1), mixed world, tie loci, --polya_requirement never.",
+ "C19": "truncate_read_to_polya on exon border positions.",
+ "C20": "Temporary directory owned; scenario reconvert-in-place-vs-hit.",
+}
+
+
 def main():
     props = [json.loads(l) for l in open(os.path.join(HERE, "properties.jsonl"))]
     checks = []
@@ -227,7 +243,7 @@ def main():
         pid = p["id"]
         if pid in CHECKS:
             level, tech, text, note, ref = CHECKS[pid]
-            text = text + ADDED.get(pid, "")
+            text = text + ADDED.get(pid, "") + (" " + ADDED2[pid] if pid in ADDED2 else "")
             checks.append({
                 "property_id": pid,
                 "quick_cmd": "./check %s --tier quick" % pid,
